@@ -1,5 +1,5 @@
 import Driver.Common
-import Logrange.Model.PipeLts
+import Logrange.Model.PipeLtsInc
 import Logrange.Generated.C10
 /-! Model driver for C10 (pipe LTS). Requests (byte strings hex, `-` = empty; an event is `<ts>:<msg>:<fields>`):
 
@@ -15,8 +15,13 @@ import Logrange.Generated.C10
 * `quiescent`                      → `0|1`
 * `pipe`                           → `absent|live|deleted reg=<0|1>` (the registry and the registry file)
 * `cfg`                            → the configuration regenerated from the source
+* `recreate`, `oldexit`            — the incarnation LTS (`Model/PipeLtsInc.lean`; every request above acts on the current
+                                     incarnation): `CreatePipe` under the name of a deleted pipe; a leftover worker of a deleted
+                                     incarnation goes away → `ok` | `disabled`
+* `partition`                      → the pipe's partition over all incarnations (`base ++ cur.dest`), `<s>=<ev>` list
+* `inc`                            → `gen=<recreations> old=<leftover workers>`
 -/
-open Go Logrange.PipeLts Driver
+open Go Logrange.PipeLts Logrange.PipeLts.Inc Driver
 
 def cfgNow : Cfg :=
   { chanCap := Logrange.Generated.C10.weChanCap
@@ -85,7 +90,10 @@ def tryStep (st : State) (l : Label) : State := (step cfgNow st l).getD st
 
 def nat (s : String) : Nat := s.toNat?.getD 0
 
-def handle (st : State) (toks : List String) : State × String :=
+def icfgNow : ICfg :=
+  ⟨Logrange.Generated.C10.deleteCleansUpBeforeAcknowledging, Logrange.Generated.C10.saveStateRefusesDeletedPipe⟩
+
+def handleCur (st : State) (toks : List String) : State × String :=
   match toks with
   | ["reset", n, o, f] => (init (nat n) (fun _ => false) (fun _ => []) (parseFlt f) (o == "1"), "ok")
   | ["src", s, l, p] =>
@@ -129,5 +137,31 @@ def handle (st : State) (toks : List String) : State × String :=
   | ["cfg"] => (st, s!"chanCap={cfgNow.chanCap} dropOnCreate={b01 cfgNow.dropOnCreate} dropOnDelete={b01 cfgNow.dropOnDelete} applyFilter={b01 cfgNow.applyFilter} rearm={b01 cfgNow.rearm}")
   | _ => (st, "bad-op")
 
+def showDest (d : List (Nat × Ev)) : String :=
+  if d.isEmpty then "-" else " ".intercalate (d.map (fun x => s!"{x.1}={showEv x.2}"))
+
+def handle (ist : IState) (toks : List String) : IState × String :=
+  match toks with
+  | ["reset", _, _, _] =>
+    let r := handleCur ist.cur toks
+    ({ cur := r.1, base := [], old := 0, gen := 0 }, r.2)
+  | ["recreate"] =>
+    match istep cfgNow icfgNow ist .recreate with
+    | some i => (i, "ok")
+    | none => (ist, "disabled")
+  | ["oldexit"] =>
+    match istep cfgNow icfgNow ist .oldExit with
+    | some i => (i, "ok")
+    | none => (ist, "disabled")
+  | ["halt"] =>
+    match istep cfgNow icfgNow ist (.plain .halt) with
+    | some i => (i, "ok")
+    | none => (ist, "disabled")
+  | ["partition"] => (ist, showDest (partition ist))
+  | ["inc"] => (ist, s!"gen={ist.gen} old={ist.old}")
+  | _ =>
+    let r := handleCur ist.cur toks
+    ({ ist with cur := r.1 }, r.2)
+
 def main (args : List String) : IO Unit :=
-  Driver.run handle (init 0 (fun _ => false) (fun _ => []) (fun _ => true) false) args
+  Driver.run handle (iinit 0 (fun _ => false) (fun _ => []) (fun _ => true) false) args
